@@ -58,6 +58,13 @@ def tv_cases(ctx, scale):
         cs.append('gi %d %d %d %d %d' % (bc, cf, B, A, (BASE + r.below(2 ** 30)) // A * A))
         cs.append('gb %d %d %d %d %d %d' % (bc, cf, B % 2 ** 30 + 1, A, BASE + r.below(2 ** 30), r.range(-128, 127)))
     cs.append('ar 127 0 145249953336295741 1')        # pvCheckParams accepts it, pvGetBufferSize wraps (see NOTES.md)
+    M = 2 ** 64 - 1
+    for bc in (1, 2, 32, 127):                        # constructor boundary values of blockSize: 0, 1, limit-1, limit, limit+1, SIZE_MAX
+        lim = M // bc
+        for bs in (0, 1, lim - 1, lim, lim + 1, M - 1, M, 2 ** 63):
+            for al in (1, 2) if bc > 1 else (1, 16, 1024):
+                if bs > M or (bc > 1 and bs > al and bs % al): continue     # a rounded-up size would wrap: outside CorrectBlockSize's domain
+                cs.append('ctor %d %d %d' % (bc, bs, al))
     return cs
 
 
@@ -93,6 +100,25 @@ def layout_cases(ctx, scale):
                     rs.add(r.below(P) // g * g)
                 for res in sorted(rs):
                     cs.append('nbuf %d %d %d %d %d' % (bc, r.choice(CFS), B, al, base + P * r.below(3) + res))
+    return cs
+
+
+def u32_cases(ctx, scale):
+    """MemPoolUInt32 (32-bit handles): random allocate / deallocate / DeallocateAll histories incl. the maxTotalBlockCount limit"""
+    r = ctx.rng
+    cs = []
+    for bc in (1, 2, 16, 32):
+        for bs in (1, 3, 4, 5, 8, 24):
+            for rep in range(2 * scale):
+                maxTotal = r.choice([bc, 2 * bc, 3 * bc + 1, 1000])
+                ops = []; live = 0
+                for _ in range(r.range(10, 40 + 4 * bc)):
+                    t = r.below(100)
+                    if t < 60: ops.append('a'); live += 1
+                    elif t < 92 and live: ops.append('f:%d' % r.choice([0, 10 ** 9, r.below(live)])); live -= 1
+                    elif t < 95: ops.append('x'); live = 0
+                if r.chance(1, 2): ops += ['a'] * (maxTotal + 2 if maxTotal < 200 else 5)     # run into the limit
+                cs.append('u32 %d %d %d %s' % (bc, bs, maxTotal, ' '.join(ops)))
     return cs
 
 
@@ -152,7 +178,7 @@ def gen_hist(r, bc, cf, bs, al, style):
             if t < 55: A(p, 1)
             elif t < 90: F(p, 1)
             elif t < 94 and bc > 1:
-                m = r.range(1, 4); ops.append('i%d:%d:%d' % (p, m, r.below(m))); live[p] -= live[p] // m
+                m = r.choice([1, 1, 2, 3, 4, 10 ** 9]); ops.append('i%d:%d:%d' % (p, m, r.below(m) if m < 10 ** 9 else m - 1)); live[p] -= live[p] // m   # m = 1: all, m = 10^9: none
             elif t < 96 and bc > 1: ops.append('x%d' % p); live[p] = 0
             elif t >= 98: M(p, 1 - p)
             elif t >= 97: ops.append('s'); live[0], live[1] = live[1], live[0]
@@ -195,6 +221,16 @@ def hist_cases(ctx, scale, n):
     for (bc, cf, bs, al) in aimed:
         for style in (0, 2, 3, 4) if bc > 1 else (1, 4):
             cs.append(gen_hist(r, bc, cf, bs, al, style))
+    for (bc, cf) in ((1, 16), (2, 1), (32, 16), (32, 1)):          # block sizes around 0 and sizeof(void*) (pvUseCache boundary)
+        for bs in (0, 1, 7, 8, 9):
+            cs.append(gen_hist(r, bc, cf, bs, r.choice([1, 4, 8]), r.choice([1, 3]) if bc > 1 else 1))
+    # audit variants: nested settings (@n), compile-time parameters (@s), more (blockCount, cache) pairs (@x)
+    for (v, bc, cf, bs, al) in (('n', 32, 16, 24, 8), ('n', 32, 16, 9, 3), ('n', 2, 0, 8, 8), ('n', 1, 1, 40, 64),
+                                ('s', 32, 16, 24, 8), ('s', 1, 0, 5, 3), ('s', 2, 1, 17, 16),
+                                ('x', 4, 2, 24, 8), ('x', 4, 2, 10, 5), ('x', 64, 64, 16, 16), ('x', 64, 64, 100, 24),
+                                ('x', 126, 3, 8, 8), ('x', 126, 3, 7, 7), ('x', 1, 2, 8, 32), ('x', 1, 2, 3, 3)):
+        for style in ((0, 1, 2, 3, 4) if bc > 1 else (1, 4)) * (2 if scale > 1 else 1):
+            cs.append(gen_hist(r, bc, cf, bs, al, style).replace('hist ', 'hist@%s ' % v, 1))
     while len(cs) < n:
         bc = r.choice(BCS); cf = r.choice(CFS); bs = r.range(1, 300); al = r.choice(ALIGNS if r.chance(2, 3) else ODD_ALIGNS)
         if bc == 127 and r.chance(1, 2): bc = r.choice([2, 3, 31, 32])
@@ -214,7 +250,12 @@ def oracle_lines(ctx, cases, lines):
             break              # not evaluated (harness stopped early: reported by the caller)
         out = lines[i]
         w = c.split()
-        if w[0] == 'hist':
+        if w[0] == 'u32':
+            if not out.startswith('ok '):
+                bad.append((c, out, 'MemPoolUInt32: ' + out[:300]))
+            else:
+                ctx.nontrivial.add(c)
+        elif w[0] == 'hist' or w[0].startswith('hist@'):
             if not out.startswith('ok '):
                 bad.append((c, out, out[:300]))
             else:
@@ -302,6 +343,45 @@ def merge_tie(ctx, cases, lines):
     return mism, len(pre)
 
 
+def measure(tv, fab, hist, u32, cases, lines):
+    """what actually ran (measured from the cases and the harness' answers), per dimension of the property"""
+    from collections import Counter
+    d = {}
+    d['case_kinds'] = dict(Counter(c.split()[0].split('@')[0] for c in tv + fab + hist + u32))
+    hk = [c.split() for c in hist]
+    d['hist_blockCount'] = dict(Counter(w[1] for w in hk))
+    d['hist_cachedFreeBlockCount'] = dict(Counter(w[2] for w in hk))
+    d['hist_variant'] = dict(Counter(w[0].split('@')[1] if '@' in w[0] else 'default' for w in hk))
+    def pow2(a): return a & (a - 1) == 0
+    d['hist_alignment'] = {'power_of_two': sum(1 for w in hk if pow2(int(w[4]))), 'non_power_of_two': sum(1 for w in hk if not pow2(int(w[4]))),
+                           '>=512': sum(1 for w in hk if int(w[4]) >= 512), 'blockCount1_non_pow2': sum(1 for w in hk if w[1] == '1' and not pow2(int(w[4])))}
+    d['hist_blockSize'] = {'0': sum(1 for w in hk if w[3] == '0'), '1..7 (no cache links)': sum(1 for w in hk if 1 <= int(w[3]) < 8),
+                           '8': sum(1 for w in hk if w[3] == '8'), '9..300': sum(1 for w in hk if 9 <= int(w[3]) <= 300)}
+    d['hist_address_granularity'] = {'16 (manager contract)': sum(1 for w in hk if not int(w[5]) & 4), 'min(16,lowbit)': sum(1 for w in hk if int(w[5]) & 4)}
+    d['hist_ops_requested'] = dict(Counter(o[0] for w in hk for o in w[7:]))
+    ev = Counter(); nontriv = Counter()
+    for c, out in zip(cases, lines):
+        k = c.split()[0]
+        if (k == 'hist' or k.startswith('hist@')) and out.startswith('ok '):
+            m = dict(kv.split('=') for kv in out.split(' |')[0].split()[1:])
+            for f in ('ops', 'buffers', 'merges', 'mergesnt', 'ifs', 'freedif', 'alls', 'swaps', 'moves', 'flushes', 'cachehits', 'returned'):
+                ev[f] += int(m.get(f, 0))
+            nontriv['histories_with_>=2_buffers'] += int(m.get('maxbuffers', 0)) >= 2
+            nontriv['histories_with_>=4_buffers'] += int(m.get('maxbuffers', 0)) >= 4
+            nontriv['histories_with_cache_flush'] += int(m.get('flushes', 0)) >= 1
+            nontriv['histories_with_2+_cache_flushes'] += int(m.get('flushes', 0)) >= 2
+            nontriv['histories_allocating_from_cache'] += int(m.get('cachehits', 0)) >= 1
+            nontriv['histories_with_manager_deallocations'] += int(m.get('returned', 0)) >= 1
+        elif k == 'u32' and out.startswith('ok '):
+            m = dict(kv.split('=') for kv in out.split()[1:])
+            ev['u32_ops'] += int(m['ops']); ev['u32_refused_at_limit'] += int(m['refused']); ev['u32_manager_allocs'] += int(m['mgrallocs'])
+    d['executed_events_total'] = dict(ev); d['history_classes'] = dict(nontriv)
+    d['layout_cases'] = {'nbuf_blockCounts': dict(Counter(c.split()[1] for c in tv if c.startswith('nbuf'))),
+                         'nb1+al1_alignments_non_pow2': sum(1 for c in tv if c.split()[0] in ('nb1', 'al1') and not pow2(int(c.split()[4]))),
+                         'ctor_boundary': sum(1 for c in tv if c.startswith('ctor'))}
+    return d
+
+
 def replay(ctx, rp):
     harness = ctx.cxx('harness.cpp', 'harness')
     if harness is None:
@@ -350,7 +430,7 @@ def run(ctx):
         for (i, c, a, b) in mism[:3]:
             ctx.violation('L1 list model and the real list surgery disagree', {'case': c, 'impl': a, 'model': b,
                           'cmd': 'echo "%s" | build/C09/harness' % c}, found_input=True)
-        trc = ['tr' + c[4:] for c in hist if c.split()[1] != '1']
+        trc = ['tr' + c[4:] for c in hist if c.split()[1] != '1']     # 'hist ...' -> 'tr ...', 'hist@x ...' -> 'tr@x ...'
         mism, _ = ctx.correspond('pool-state-trace', trc, [harness], [ctx.model_exe])
         ctx.tie_obligations.append({'name': 'concrete model PoolConc (buffer list, per-buffer free chain order, cache order, counts, returned block) == private state of the real pool after EVERY op of %d histories' % len(trc), 'ok': not mism})
         for (i, c, a, b) in mism[:2]:
@@ -362,7 +442,8 @@ def run(ctx):
         ctx.log('a stage broke: searching the implementation for a failing input with the thorough generator')
         hist = hist + hist_cases(ctx, 6, 4000)
         tv = tv + layout_cases(ctx, 4)
-    cases = [c for c in tv if c.startswith('nb') or c.startswith('al1')] + fab + hist
+    u32 = u32_cases(ctx, scale)
+    cases = [c for c in tv if c.startswith('nb') or c.startswith('al1')] + fab + hist + u32
     rc, lines, err = run_harness(ctx, harness, cases, 'oracle')
     ctx.evaluations += len(cases)
     bad = oracle_lines(ctx, cases, lines)
@@ -384,9 +465,7 @@ def run(ctx):
             ctx.violation('L1 MergeFrom model and the real MergeFrom disagree', {'case': c, 'merge': pre, 'impl': post, 'model': model}, found_input=True)
     for c in (tv[::max(1, len(tv) // 3)][:3] + hist[:3]):
         ctx.add_sample(c[:400])
-    ctx.coverage['input_distribution'] = {k: sum(1 for c in (tv + fab + hist) if c.split()[0] == k)
-                                          for k in ('ceil', 'cbs', 'chk', 'ar', 'gb', 'gi', 'pos', 'nb1', 'nbuf', 'fabmg', 'fabmv', 'fabdel', 'hist')}
-    ctx.coverage['input_distribution']['tr'] = sum(1 for c in hist if c.split()[1] != '1')
+    ctx.coverage['input_distribution'] = measure(tv, fab, hist, u32, cases, lines)
     return ctx.finish(rule=RULE)
 
 
